@@ -158,6 +158,32 @@ func makeIntrinsics() map[string]intrinsic {
 		}
 		return r
 	}
+	m[V+"AtomicallyOrAbort"] = func(st *State, fr *frame, a []value, cc *ssa.CallCommon) value {
+		snap := st.snapshotColls()
+		cl := a[1].(*closure)
+		var r value
+		aborted := false
+		func() {
+			defer func() {
+				if x := recover(); x != nil {
+					if pe, ok := x.(pathEnd); ok && pe.kind == "panic" {
+						aborted = true // baseapp recovers the panic and fails the transaction
+						return
+					}
+					panic(x)
+				}
+			}()
+			r = st.callFunction(fr, cl.Fn, append([]value{a[0]}, cl.Env...), nil)
+		}()
+		if aborted {
+			st.colls = snap
+			return tuple{iface{}, True}
+		}
+		if e, ok := r.(iface); ok && e.t != nil {
+			st.colls = snap
+		}
+		return tuple{r, False}
+	}
 	m["google.golang.org/grpc/status.Error"] = func(st *State, fr *frame, a []value, cc *ssa.CallCommon) value { return newErr(st, "grpc-status") }
 	m["google.golang.org/grpc/status.Errorf"] = func(st *State, fr *frame, a []value, cc *ssa.CallCommon) value { return newErr(st, "grpc-status") }
 	m[V+"StateDigest"] = func(st *State, fr *frame, a []value, cc *ssa.CallCommon) value {
@@ -284,6 +310,101 @@ func makeIntrinsics() map[string]intrinsic {
 		mp := syncMap(st, a[0])
 		mp.keys, mp.vals, mp.orig = nil, nil, nil
 		return nil
+	}
+	// ---- sync/atomic: single-threaded execution (E5), so every atomic operation is the plain one ------------------
+	// typed cells (atomic.Pointer[T], atomic.Value) hide their content behind unsafe.Pointer: kept in a side table per path
+	atomCell := func(st *State, recv value) *value {
+		p, ok := recv.(*value)
+		if !ok || p == nil {
+			panic(pathEnd{kind: "panic", msg: "sync/atomic method on a nil pointer"})
+		}
+		if st.atomCells == nil {
+			st.atomCells = map[*value]*value{}
+		}
+		if st.atomCells[p] == nil {
+			st.atomCells[p] = new(value)
+		}
+		return st.atomCells[p]
+	}
+	resZero := func(st *State) value { return zero(st.curFn.Signature.Results().At(0).Type()) }
+	m["(*sync/atomic.Pointer[T]).Load"] = func(st *State, fr *frame, a []value, cc *ssa.CallCommon) value {
+		c := atomCell(st, a[0])
+		if *c == nil {
+			return resZero(st)
+		}
+		return *c
+	}
+	m["(*sync/atomic.Pointer[T]).Store"] = func(st *State, fr *frame, a []value, cc *ssa.CallCommon) value {
+		*atomCell(st, a[0]) = a[1]
+		return nil
+	}
+	m["(*sync/atomic.Pointer[T]).Swap"] = func(st *State, fr *frame, a []value, cc *ssa.CallCommon) value {
+		c := atomCell(st, a[0])
+		old := *c
+		if old == nil {
+			old = resZero(st)
+		}
+		*c = a[1]
+		return old
+	}
+	m["(*sync/atomic.Pointer[T]).CompareAndSwap"] = func(st *State, fr *frame, a []value, cc *ssa.CallCommon) value {
+		c := atomCell(st, a[0])
+		cur := *c
+		if cur == nil {
+			cur = zero(st.curFn.Signature.Params().At(0).Type())
+		}
+		if st.decide(st.eq(cur, a[1])) {
+			*c = a[2]
+			return True
+		}
+		return False
+	}
+	m["(*sync/atomic.Value).Load"] = func(st *State, fr *frame, a []value, cc *ssa.CallCommon) value {
+		c := atomCell(st, a[0])
+		if *c == nil {
+			return iface{}
+		}
+		return *c
+	}
+	m["(*sync/atomic.Value).Store"] = func(st *State, fr *frame, a []value, cc *ssa.CallCommon) value {
+		if i, ok := a[1].(iface); ok && i.t == nil {
+			panic(pathEnd{kind: "panic", msg: "sync/atomic: store of nil value into Value"})
+		}
+		*atomCell(st, a[0]) = a[1]
+		return nil
+	}
+	cellOf := func(v value) *value {
+		p, ok := v.(*value)
+		if !ok || p == nil {
+			panic(pathEnd{kind: "panic", msg: "sync/atomic operation on a nil address"})
+		}
+		return p
+	}
+	for _, ty := range []string{"Int32", "Int64", "Uint32", "Uint64", "Uintptr"} {
+		m["sync/atomic.Load"+ty] = func(st *State, fr *frame, a []value, cc *ssa.CallCommon) value { return copyVal(*cellOf(a[0])) }
+		m["sync/atomic.Store"+ty] = func(st *State, fr *frame, a []value, cc *ssa.CallCommon) value {
+			*cellOf(a[0]) = a[1]
+			return nil
+		}
+		m["sync/atomic.Add"+ty] = func(st *State, fr *frame, a []value, cc *ssa.CallCommon) value {
+			c := cellOf(a[0])
+			*c = BVBin("bvadd", (*c).(*Term), a[1].(*Term))
+			return *c
+		}
+		m["sync/atomic.Swap"+ty] = func(st *State, fr *frame, a []value, cc *ssa.CallCommon) value {
+			c := cellOf(a[0])
+			old := *c
+			*c = a[1]
+			return old
+		}
+		m["sync/atomic.CompareAndSwap"+ty] = func(st *State, fr *frame, a []value, cc *ssa.CallCommon) value {
+			c := cellOf(a[0])
+			if st.decide(Eq((*c).(*Term), a[1].(*Term))) {
+				*c = a[2]
+				return True
+			}
+			return False
+		}
 	}
 	for _, n := range []string{"(*sync.Mutex).Lock", "(*sync.Mutex).Unlock", "(*sync.RWMutex).Lock", "(*sync.RWMutex).Unlock", "(*sync.RWMutex).RLock", "(*sync.RWMutex).RUnlock"} {
 		m[n] = func(st *State, fr *frame, a []value, cc *ssa.CallCommon) value { return nil }
@@ -1291,6 +1412,13 @@ func makeIntrinsics() map[string]intrinsic {
 	m[V+"EncodeICS20"] = func(st *State, fr *frame, a []value, cc *ssa.CallCommon) value {
 		return &Str{Len: st.freshVar("ics20_len", BV(64)), Blob: icsBlob{data: copyVal(a[0])}}
 	}
+	m[V+"EncodeICS20Wire"] = func(st *State, fr *frame, a []value, cc *ssa.CallCommon) value {
+		w, ok := asConcreteInt(a[1])
+		if !ok {
+			panic(pathEnd{kind: "unsupported", msg: "symbolic wire form"})
+		}
+		return &Str{Len: st.freshVar("ics20_len", BV(64)), Blob: icsBlob{data: copyVal(a[0]), wire: w}}
+	}
 	m[V+"EncodeICS20Unknown"] = func(st *State, fr *frame, a []value, cc *ssa.CallCommon) value {
 		return &Str{Len: st.freshVar("ics20_len", BV(64)), Blob: icsBlob{data: copyVal(a[0]), unknown: true}}
 	}
@@ -1299,7 +1427,15 @@ func makeIntrinsics() map[string]intrinsic {
 	}
 	m[V+"EncodeMemo"] = func(st *State, fr *frame, a []value, cc *ssa.CallCommon) value {
 		n, _ := asConcreteInt(a[1])
-		return &Str{Len: st.freshVar("memo_len", BV(64)), Blob: memoBlob{a[0], n}}
+		return &Str{Len: st.freshVar("memo_len", BV(64)), Blob: memoBlob{a[0], n, 0}}
+	}
+	m[V+"EncodeMemoTail"] = func(st *State, fr *frame, a []value, cc *ssa.CallCommon) value {
+		n, _ := asConcreteInt(a[1])
+		t, ok := asConcreteInt(a[2])
+		if !ok {
+			panic(pathEnd{kind: "unsupported", msg: "symbolic memo tail"})
+		}
+		return &Str{Len: st.freshVar("memo_len", BV(64)), Blob: memoBlob{a[0], n, t}}
 	}
 	m[V+"DecodeJSON"] = func(st *State, fr *frame, a []value, cc *ssa.CallCommon) value {
 		mb, ok := asStr(a[0]).Blob.(memoBlob)
@@ -1324,7 +1460,7 @@ func makeIntrinsics() map[string]intrinsic {
 			return newErr(st, "json") // the proto JSON codec refuses unknown fields
 		}
 		dst := a[2].(iface).v.(*value)
-		*dst = copyVal(ib.data)
+		st.decodeICS(dst, ib)
 		return iface{}
 	}
 	m["encoding/json.Unmarshal"] = func(st *State, fr *frame, a []value, cc *ssa.CallCommon) value {
@@ -1333,7 +1469,7 @@ func makeIntrinsics() map[string]intrinsic {
 		if ib, ok := src.Blob.(icsBlob); ok {
 			// encoding/json into the packet struct: lenient (unknown fields ignored)
 			if _, isStruct := (*dst).(structure); isStruct {
-				*dst = copyVal(ib.data)
+				st.decodeICS(dst, ib)
 				return iface{}
 			}
 			return newErr(st, "json")
@@ -1341,6 +1477,9 @@ func makeIntrinsics() map[string]intrinsic {
 		jsonObj := iface{t: errObjType, v: &opaque{tag: "jsonobj"}}
 		mp := &mapV{}
 		if mb, ok := src.Blob.(memoBlob); ok {
+			if mb.tail >= 1 && mb.tail <= 3 {
+				return newErr(st, "json") // encoding/json.Unmarshal validates the whole input: bytes after the top-level value
+			}
 			mp.keys = append(mp.keys, StrConst("orbiter"))
 			// {"orbiter": null} when the wrapper has no payload
 			w := (*(mb.wrapper.(*value))).(structure)
@@ -1795,4 +1934,31 @@ func setOracleConstants(c map[string]string) {
 			panic("engine bech32 disagrees with the native oracle: " + got + " vs " + want)
 		}
 	}
+}
+
+
+// decodeICS writes decoded ICS-20 packet data into a decoder's target. Neither jsonpb nor encoding/json resets the
+// target: a field that is absent from the document (wire forms 0 and 2 omit empty fields, as ibc-go's own encoder does)
+// keeps whatever the target held.
+func (st *State) decodeICS(dst *value, ib icsBlob) {
+	nw := copyVal(ib.data).(structure)
+	old, ok := (*dst).(structure)
+	if ib.wire == 1 || !ok || len(old) != len(nw) {
+		*dst = nw
+		return
+	}
+	for i := range nw {
+		ns, ok1 := nw[i].(*Str)
+		os, ok2 := old[i].(*Str)
+		if !ok1 || !ok2 {
+			continue
+		}
+		if os.Len.IsConst() && os.Len.C.Sign() == 0 {
+			continue // nothing to inherit
+		}
+		if st.decide(Eq(ns.Len, BVConstI(0, 64))) {
+			nw[i] = os // absent from the document: the target's previous content stays
+		}
+	}
+	*dst = nw
 }
